@@ -25,11 +25,16 @@ from pathlib import Path
 from .. import common as C
 from ..common import Corr, Violation, clist
 
-TRANSLATORS = ['purefuns_peek']
+TRANSLATORS = ['purefuns_peek', 'debugger_stream']
 
 TRUSTED_BASE = [
     'translator translate/purefuns_peek.py (ast -> Gallina for ReadLinesByKey, AssignKey, peek_textio.write) and the '
     'vocabulary coq/theories/Stdout/Prim.v giving the meaning of str +, endswith, in, rindex, slicing, defaultdict get/set/pop, truthiness',
+    'translator translate/debugger_stream.py (ast -> statement trees of StdInOut.__init__/write/flush/readline, Factory._factory, '
+    'CustomizedPdb.__init__, peek_textio and its wrapper, peek_stdout, peek_stdout_by_key, Repeater.on_write_stdout; Gen/DebuggerStream.v) '
+    'and the interpreter of those trees in coq/theories/Stdout/DebugTie.v (semantics of the small statement language, of the factory terms '
+    'and of the two-sink labels); modelled, not verified: pdb.Pdb / cmd.Cmd write everything to the stdout they were constructed with '
+    '(sys.stdout when none is given) and read commands with stdin.readline(); one Pdb per trace number, running in that trace (C06)',
     'hand-written wiring in Stdout/Model.v (peek_stdout_by_key, PeekStdout, Repeater.on_write_stdout); its ast shape is pinned '
     'by the translator and its behaviour is compared with the real code on every run',
     'correspondence harness harness/props/c13.py (program generator, derivation of the write() calls made by print(), '
@@ -364,6 +369,223 @@ def oracle_plain(ops, got, real):
     if ''.join(real) != ''.join(allw):
         bad.append(('real-stdout-incomplete', f'real stdout received {"".join(real)[:80]!r}, written {"".join(allw)[:80]!r}'))
     return bad
+
+
+# ---------------------------------------------------------------- two-sink level: script writes and debugger writes interleaved
+
+PDB_PROMPT = '(Pdb) '
+
+
+class _FakeGen:
+    def send(self, value):
+        return None
+
+
+class _FakeCtx:
+    gen = _FakeGen()
+
+    def __enter__(self):
+        return self
+
+    def __exit__(self, *a):
+        return False
+
+
+class FakeHook:
+    """what pdb_/factory.py:PromptFunc / CmdloopHook use of the plugin manager: hook.hook.prompt(..) answers, with_.on_prompt(..)"""
+
+    def __init__(self):
+        from types import SimpleNamespace
+        self.asked = []          # [trace of the Pdb that asked, text]
+        self.cur = None
+        self.answer = ''
+        self.hook = SimpleNamespace(prompt=self._prompt, is_on_trace_call=lambda: True)
+        self.with_ = SimpleNamespace(on_prompt=lambda **kw: _FakeCtx(), on_cmdloop=lambda **kw: _FakeCtx())
+
+    def _prompt(self, prompt_no, text):
+        self.asked.append([self.cur, text])
+        return self.answer
+
+
+def impl_twosink(ops):
+    """ops: ['S', key, text] the script writes to sys.stdout while current_trace_no() = key;
+            ['W', n, text] / ['M', n, text] / ['F', n] / ['R', n, cmd]: the REAL Pdb object the REAL factory built for trace n
+            writes text to its stdout / prints a message / flushes / reads a command (answered with cmd).
+    Real code: pdb_/factory.py:Factory (-> CustomizedPdb, StdInOut), peek_stdout_by_key around a recording sys.stdout."""
+    import logging
+    from nextline.spawned.plugin.plugins.pdb_.factory import Factory
+    from nextline.spawned.plugin.plugins.peek import peek_stdout_by_key
+    got, cmds = [], []
+    cur = [None]
+    rec = RecStdout()
+    hook = FakeHook()
+    pdbs: dict = {}
+    old = sys.stdout
+    sys.stdout = rec
+    logging.disable(logging.CRITICAL)
+    try:
+        with peek_stdout_by_key(key_factory=lambda: cur[0], callback=lambda k, line: got.append([k, line])):
+            factory = Factory(hook=hook)
+
+            def pdb_of(n):
+                if n not in pdbs:
+                    cur[0] = n
+                    pdbs[n] = factory().__self__
+                return pdbs[n]
+
+            for op in ops:
+                if op[0] == 'S':
+                    cur[0] = op[1]
+                    sys.stdout.write(op[2])
+                    continue
+                n = op[1]
+                pdb = pdb_of(n)
+                cur[0] = n
+                hook.cur = n
+                if op[0] == 'W':
+                    pdb.stdout.write(op[2])
+                elif op[0] == 'M':
+                    pdb.message(op[2])
+                elif op[0] == 'F':
+                    pdb.stdout.flush()
+                elif op[0] == 'R':
+                    hook.answer = op[2]
+                    try:
+                        cmds.append([n, pdb.stdin.readline()])
+                    except AssertionError:
+                        pass
+    finally:
+        logging.disable(logging.NOTSET)
+        sys.stdout = old
+    return got, rec.writes, hook.asked, cmds
+
+
+def twosink_labels(ops):
+    out = []
+    for op in ops:
+        if op[0] == 'M':
+            out += [['W', op[1], op[2]], ['W', op[1], '\n']]       # print(msg, file=self.stdout)
+        else:
+            out.append(op)
+    return out
+
+
+def gen_twosink_cases(rng, n: int, maxlen: int):
+    cases = []
+    for _ in range(n):
+        ops = []
+        for _ in range(rng.randint(1, maxlen)):
+            r = rng.random()
+            if r < 0.45:
+                ops.append(['S', rng.choice(KEYS), rand_text(rng)])
+                continue
+            t = rng.choice([1, 1, 2, 3])
+            if r < 0.62:
+                ops.append(['W', t, rand_text(rng)])
+            elif r < 0.72:
+                ops.append(['M', t, rand_body(rng)])
+            elif r < 0.77:
+                ops.append(['F', t])
+            else:
+                # mostly what cmd.Cmd.cmdloop does: write the prompt, flush, read
+                if rng.random() < 0.8:
+                    ops += [['W', t, PDB_PROMPT], ['F', t]]
+                ops.append(['R', t, rng.choice(['next', 'step', 'continue', '', rand_body(rng, 5)])])
+        cases.append(ops)
+    return cases
+
+
+FIXED_TWOSINK = [
+    [['S', 1, 'a'], ['M', 1, '> <string>(1)<module>()'], ['W', 1, PDB_PROMPT], ['F', 1], ['S', 2, 'x\n'], ['M', 2, '> f()'],
+     ['R', 1, 'next'], ['S', 1, 'b\n'], ['M', 1, '42'], ['W', 1, PDB_PROMPT], ['R', 1, 'continue'], ['W', 2, PDB_PROMPT], ['R', 2, 'step']],
+    [['W', 1, 'no prompt at the end'], ['R', 1, 'x'], ['W', 1, PDB_PROMPT], ['R', 1, 'y']],
+    [['S', 1, 'partial'], ['W', 1, 'dbg\n'], ['S', 1, ' line\n']],
+]
+
+
+def file_twosink(cases) -> str:
+    def lab(op):
+        if op[0] == 'S':
+            return f'DS {ckey(op[1])} {ctext(op[2])}'
+        if op[0] == 'W':
+            return f'DW {int(op[1])} {ctext(op[2])}'
+        if op[0] == 'F':
+            return f'DF {int(op[1])}'
+        return f'DR {int(op[1])} {ctext(op[2])}'
+    rows = []
+    for labels, got, real, asked, cmds in cases:
+        rows.append(f'({clist(lab(o) for o in labels)},\n  (({ccalls(got)}, [{ctext("".join(real))}]), ({ccalls(asked)}, {ccalls(cmds)})))')
+    t_obs = f'(({T_KT} * list (list Z)) * ({T_KT} * {T_KT}))'
+    return ('From NL Require Import Stdout.Model Stdout.DebugTie.\nOpen Scope Z_scope.\n'
+            f'Definition cases : list (list dlabel * {t_obs}) :=\n ' + clist(rows) + '.\n'
+            'Eval vm_compute in bad_from two_eqb two_run 0%nat '
+            '(map (fun c => (fst c, ((cs_of (fst (fst (snd c))), ts_of (snd (fst (snd c)))), '
+            '(cs_of (fst (snd (snd c))), cs_of (snd (snd (snd c))))))) cases).\n')
+
+
+def oracle_twosink(ops, got, real):
+    """the property, on the observed behaviour: what is reported and what reaches the real stdout is what the SCRIPT wrote"""
+    script = [[op[1], ['write', op[2]]] for op in ops if op[0] == 'S']
+    bad = oracle_plain(script, got, real)
+    if bad and len(script) < len(ops):
+        g2, r2, _, _ = impl_twosink([op for op in ops if op[0] == 'S'])
+        if not oracle_plain(script, g2, r2):
+            dbg = ''.join(op[2] for op in twosink_labels(ops) if op[0] == 'W')
+            return [('debugger-text-reported', f'with the debugger\'s writes ({dbg[:60]!r}) interleaved: ' + '; '.join(w for _, w in bad)[:300])]
+    return bad
+
+
+def run_twosink(ctx, corr: Corr, cases, seen: set):
+    obs = []
+    hist = corr.extra.setdefault('twosink_shapes', {'cases': 0, 'script_writes': 0, 'debugger_writes': 0, 'readlines': 0,
+                                                    'readlines_refused': 0, 'script_line_around_debugger_text': 0})
+    for ops in cases:
+        try:
+            got, real, asked, cmds = impl_twosink(ops)
+        except Exception as e:
+            corr.mismatches.append({'kind': 'twosink-raised', 'ops': ops, 'exc': repr(e)})
+            continue
+        labels = twosink_labels(ops)
+        obs.append((labels, got, real, asked, cmds))
+        key = 'ts' + json.dumps(ops)
+        if key not in seen:
+            seen.add(key)
+            if got and any(o[0] != 'S' for o in ops):
+                corr.distinct_nontrivial += 1
+        hist['cases'] += 1
+        hist['script_writes'] += sum(1 for o in labels if o[0] == 'S')
+        hist['debugger_writes'] += sum(1 for o in labels if o[0] == 'W')
+        nr = sum(1 for o in labels if o[0] == 'R')
+        hist['readlines'] += nr
+        hist['readlines_refused'] += nr - len(cmds)
+        pend: dict = {}
+        for o in labels:
+            if o[0] == 'S' and o[1]:
+                pend[o[1]] = (pend.get(o[1], False) or bool(o[2])) and not o[2].endswith('\n')
+            elif o[0] == 'W' and pend.get(o[1]) and o[2]:
+                hist['script_line_around_debugger_text'] += 1
+                pend[o[1]] = False
+        for sig, what in oracle_twosink(ops, got, real):
+            corr.violations.append(Violation(sig, 'two-sink level (real Factory/Pdb/StdInOut + peek_stdout_by_key): ' + what,
+                                             {'level': 'twosink', 'ops': ops, 'observed_callbacks': got, 'real': real}))
+    files = {}
+    CH = 300
+    for i in range(0, len(obs), CH):
+        files[f'ts_{i // CH}'] = file_twosink(obs[i:i + CH])
+    for name, (ok, out) in ctx.coq_eval_many(files).items():
+        base = int(name.split('_')[1]) * CH
+        badl = C.parse_nat_list(out) if ok else None
+        if badl is None:
+            corr.mismatches.append({'kind': 'coq-eval-failed', 'file': name, 'log': out[-600:]})
+            continue
+        for b in badl:
+            labels, got, real, asked, cmds = obs[base + b]
+            corr.mismatches.append({'kind': 'twosink', 'labels': labels, 'callbacks': got, 'real': real, 'prompts': asked, 'cmds': cmds})
+    corr.evaluations += len(obs)
+    corr.extra['twosink_cases'] = corr.extra.get('twosink_cases', 0) + len(obs)
+    if obs:
+        labels, got, real, asked, cmds = obs[0]
+        corr.samples.append({'level': 'twosink', 'labels': labels[:14], 'callbacks': got[:6], 'prompts': asked[:4]})
 
 
 # ---------------------------------------------------------------- system level: program generator
@@ -921,6 +1143,95 @@ def run_system(ctx, corr: Corr, progs: list[dict], seen: set, fixed_first: int =
                              'events': [[e['trace_no'], e['text'][:40]] for e in r.get('events', []) if e.get('type') == 'OnWriteStdout'][:10]})
 
 
+LINE_BOUNDARY_CHARS = ['\r', '\x0b', '\x0c', '\x1c', '\x1d', '\x1e', '\x85', '\u2028', '\u2029']   # str.splitlines() splits at these too
+
+
+def registrar_events(rng, n: int) -> list:
+    """whole-line pieces as PeekStdout emits them (always ending with a newline), some containing characters that are line
+    boundaries for str.splitlines() but not line ends: a progress bar rewriting its line with \\r, a form feed, NEL, LS/PS"""
+    out = []
+    for i in range(n):
+        t = rand_text(rng)
+        if i % 4 == 0:
+            body = ''.join(rng.choice(['ab', 'x', '  ', '10%', rng.choice(LINE_BOUNDARY_CHARS)]) for _ in range(rng.randint(1, 6)))
+            t = body + rng.choice(LINE_BOUNDARY_CHARS) + 'tail\n' + (rng.choice(['', 'second line\n']))
+        elif not t.endswith('\n'):
+            t = t + '\n'
+        out.append([rng.randint(1, 3), rng.randint(1, 4), t])
+    return out
+
+
+def publish_through_registrar(events: list) -> list:
+    """drive the REAL StdoutRegistrar with the events; -> [[run_no, trace_no, text]] published on 'stdout', in order"""
+    import asyncio
+    import datetime
+    import types
+    from nextline.events import OnWriteStdout
+    from nextline.plugin.plugins.registrars.stdout import StdoutRegistrar
+    published = []
+
+    class PS:
+        async def publish(self, key, item):
+            published.append([key, item.run_no, item.trace_no, item.text])
+
+    async def drive():
+        reg = StdoutRegistrar()
+        for k, (run_no, trace_no, text) in enumerate(events):
+            cx = types.SimpleNamespace(run_arg=types.SimpleNamespace(run_no=run_no), pubsub=PS())
+            await reg.on_write_stdout(context=cx, event=OnWriteStdout(written_at=datetime.datetime(2020, 1, 1, 0, 0, k % 60), run_no=run_no, trace_no=trace_no, text=text))
+    asyncio.new_event_loop().run_until_complete(drive())
+    return published
+
+
+def oracle_registrar(events: list, published: list) -> list:
+    """the property text on what subscribers of 'stdout' receive: per (run, trace) exactly the reported text, once, in order,
+    in pieces that end at a line end -- however the registrar groups whole lines into pieces"""
+    bad = []
+    for key, *_ in published:
+        if key != 'stdout':
+            bad.append(('registrar:published-on-other-topic', f'published on {key!r}'))
+            break
+    want, got = {}, {}
+    for r, t, x in events:
+        want[(r, t)] = want.get((r, t), '') + x
+    for _, r, t, x in published:
+        got[(r, t)] = got.get((r, t), '') + x
+        if not x.endswith('\n') and not any(s0 == 'registrar:piece-does-not-end-at-line-end' for s0, _ in bad):
+            bad.append(('registrar:piece-does-not-end-at-line-end', f'subscribers of stdout received the piece {x!r} (run {r}, trace {t}), which does not end with a newline'))
+    for k in sorted(set(want) | set(got)):
+        if want.get(k, '') != got.get(k, ''):
+            bad.append(('registrar:published-text-differs', f'run/trace {k}: reported {want.get(k, "")[:80]!r}, published {got.get(k, "")[:80]!r}'))
+            break
+    order_w = [(r, t) for r, t, _ in events]
+    order_g = []
+    for _, r, t, _x in published:
+        if not order_g or order_g[-1] != (r, t):
+            order_g.append((r, t))
+    dedup_w = [k for i, k in enumerate(order_w) if i == 0 or order_w[i - 1] != k]
+    if not bad and order_g != dedup_w:
+        bad.append(('registrar:published-out-of-order', 'the pieces of different traces were published in another order than reported'))
+    return bad
+
+
+def run_registrar_lines(ctx, corr: Corr, events: list):
+    """registrars/stdout.py on whole-line pieces: what subscribers receive is judged by the property text"""
+    try:
+        pub = publish_through_registrar(events)
+        for sig, what in oracle_registrar(events, pub):
+            # shrink to the first event that shows it
+            for k in range(len(events)):
+                one = [events[k]]
+                if any(s2 == sig for s2, _ in oracle_registrar(one, publish_through_registrar(one))):
+                    events_min = one
+                    break
+            else:
+                events_min = events
+            corr.violations.append(Violation(sig, what, {'level': 'registrar', 'events': events_min}))
+    except Exception as e:
+        corr.mismatches.append({'kind': 'registrar-raised', 'exc': repr(e)})
+    corr.extra['registrar_line_events_checked'] = len(events)
+
+
 def run_registrar(ctx, corr: Corr, events: list):
     """registrars/stdout.py: every OnWriteStdout event is published once on 'stdout' as a StdoutInfo
     with the same run_no / trace_no / text / written_at."""
@@ -993,7 +1304,10 @@ def correspond(ctx) -> Corr:
     rng = ctx.rng
     corr = Corr()
     corr.rule = ('pure: generated sequences of (key, text) / (actor, write|print|writelines) on the real ReadLinesByKey, AssignKey and '
-                 'peek_stdout_by_key (+ all write sequences up to a bound over 2 actors x 5 newline shapes); system: generated programs '
+                 'peek_stdout_by_key (+ all write sequences up to a bound over 2 actors x 5 newline shapes); two-sink: generated interleavings of script '
+                 'writes (real peek_stdout_by_key around a recording sys.stdout) with writes / messages / flushes / readlines of the real Pdb objects '
+                 'built by the real pdb_/factory.py:Factory, against the interpreter of the regenerated trees (Stdout/DebugTie.v: events, real stdout, '
+                 'prompt-function calls, commands); system: generated programs '
                  '(main thread, threads, asyncio tasks, untraced thread; print-only / line-wise / embedded-newline / trailing-partial-write) '
                  'through nextline.spawned.main under step/next/continue/return/random policies and a policy that also issues debugger commands producing output (list, where, p ...). distinct = distinct input '
                  '(program text + policy); non-trivial = at least one piece was reported (a buffer was flushed)')
@@ -1009,12 +1323,15 @@ def correspond(ctx) -> Corr:
     corr.extra['exhaustive_plain_cases'] = len(ex)
     corr.extra['exhaustive_bound'] = f'all write sequences of length <= {exh} over 11 labels (2 actors x 5 newline shapes + 1 untraced write)'
     ctx.log(f'pure level done: {corr.evaluations} cases, mismatches={len(corr.mismatches)}, oracle hits={len(corr.violations)}')
+    run_twosink(ctx, corr, FIXED_TWOSINK + gen_twosink_cases(rng, 300 if ctx.tier == 'quick' else 3000, 16 if ctx.tier == 'quick' else 40), seen)
+    ctx.log(f'two-sink level done: {corr.extra["twosink_cases"]} cases, mismatches={len(corr.mismatches)}, oracle hits={len(corr.violations)}')
     fixed = fixed_programs() + corpus_progs
     progs = fixed + gen_programs(rng, n_prog)
     run_system(ctx, corr, progs, seen, fixed_first=len(fixed))
     ctx.log(f'system level done: {corr.extra["system_shapes"]["programs"]} programs, mismatches={len(corr.mismatches)}, '
             f'oracle hits={len(corr.violations)}')
     run_registrar(ctx, corr, [[rng.randint(1, 5), rng.randint(1, 9), rand_text(rng)] for _ in range(200)])
+    run_registrar_lines(ctx, corr, registrar_events(rng, 120))
     order_violations(corr)
     return corr
 
@@ -1036,6 +1353,18 @@ def search(ctx, broken) -> list:
             corr.violations.append(Violation(sig, 'pure level (peek_stdout_by_key): ' + what,
                                              {'level': 'pure', 'ops': shrink_plain(ops, sig), 'original_ops': ops}))
         if len({v.signature for v in corr.violations}) >= 4:
+            break
+    for ops in FIXED_TWOSINK + gen_twosink_cases(rng, 400, 20):
+        try:
+            got, real, _, _ = impl_twosink(ops)
+        except Exception as e:
+            corr.violations.append(Violation('capture-raised', f'two-sink level: the real code raised {e!r}', {'level': 'twosink', 'ops': ops}))
+            break
+        hits = oracle_twosink(ops, got, real)
+        for sig, what in hits:
+            corr.violations.append(Violation(sig, 'two-sink level (real Factory/Pdb/StdInOut + peek_stdout_by_key): ' + what,
+                                             {'level': 'twosink', 'ops': ops, 'observed_callbacks': got, 'real': real}))
+        if hits:
             break
     progs = fixed_programs() + gen_programs(rng, 400)
     sub = Corr()
@@ -1065,7 +1394,20 @@ def shrink_plain(ops, sig):
 
 def replay(ctx, path: Path) -> int:
     j = json.loads(Path(path).read_text())
-    if j.get('level') == 'pure':
+    if j.get('level') == 'twosink':
+        ops = j['ops']
+        got, real, asked, cmds = impl_twosink(ops)
+        print('labels   :', twosink_labels(ops))
+        print('callbacks:', got)
+        print('real     :', real)
+        print('prompts  :', asked)
+        bad = oracle_twosink(ops, got, real)
+    elif j.get('level') == 'registrar':
+        pub = publish_through_registrar(j['events'])
+        print('reported (OnWriteStdout):', j['events'])
+        print("published on 'stdout'   :", pub)
+        bad = oracle_registrar(j['events'], pub)
+    elif j.get('level') == 'pure':
         ops = j['ops']
         got, real, _ = impl_plain(ops)
         print('writes   :', [[a, w] for a, op in ops for w in op_writes(op)])
